@@ -49,7 +49,7 @@ T_WIDE = T + ("optional", "list", "union")
 def rand_ir(r, name):
     if r.random() < 0.5:
         return irgen.rand_ir(r, nparams=r.randint(1, 4), type_kinds=T, default_kinds=D, all_defaults=True,
-                             with_return=False, name=name)
+                             with_return=False, name=name, doc_kinds=("plain", "plain", "punct"))
     # wider: compound types and required parameters (signature-legal: defaults form a suffix)
     return irgen.rand_ir(r, nparams=r.randint(1, 5), type_kinds=T_WIDE, default_kinds=D + ("absent",), with_return=False,
                          name=name)
